@@ -240,11 +240,13 @@ template <> z_interval_t z_interval_t::AShr(const z_interval_t &x) const {
       // huge shifts.  We limit the number of times the loop is run
       // to avoid wasting too much time on it.
       if (k <= 128) {
-        z_number factor = 1;
-        for (int i = 0; k > i; i++) {
-          factor *= 2;
-        }
-        return (*this) / factor;
+        // An arithmetic shift rounds towards -oo (unlike division,
+        // which rounds towards zero) and it is monotone.
+        bound_t lb =
+            (_lb.is_finite() ? bound_t(*(_lb.number()) >> k) : _lb);
+        bound_t ub =
+            (_ub.is_finite() ? bound_t(*(_ub.number()) >> k) : _ub);
+        return interval_t(lb, ub);
       }
     }
     return top();
